@@ -549,11 +549,59 @@ def r_range_parse(model, obligation):
     return {"confirmed": got != want, "detail": f"Range: {hdr} -> {got!r}; RFC 7233 2.1 -> {want!r}", "input": hdr}
 
 
+def _r_if_range(model):
+    """a 10-byte static file over loop-back, `Range: bytes=2-` with If-Range = another entity-tag / the current one / the
+    current one marked weak / no validator at all: 200 + whole file unless the validator is the current strong tag"""
+    import os
+    import tempfile
+
+    import aiohttp
+    from aiohttp import web
+
+    got = {}
+
+    async def run(td):
+        p = os.path.join(td, "f.bin")
+        with open(p, "wb") as fh:
+            fh.write(b"0123456789")
+
+        async def handler(request):
+            return web.FileResponse(p)
+
+        app = web.Application()
+        app.router.add_get("/f", handler)
+        runner = web.AppRunner(app)
+        await runner.setup()
+        site = web.TCPSite(runner, "127.0.0.1", 0)
+        await site.start()
+        url = f"http://127.0.0.1:{site._server.sockets[0].getsockname()[1]}/f"
+        async with aiohttp.ClientSession() as cs:
+            async with cs.get(url) as r:
+                etag = r.headers["ETag"]
+            for name, v in (("another entity-tag", '"deadbeef-a"'), ("current entity-tag", etag),
+                            ("weak current tag", "W/" + etag), ("no validator", "yesterday")):
+                async with cs.get(url, headers={"Range": "bytes=2-", "If-Range": v}) as r:
+                    got[name] = (r.status, await r.read())
+        await runner.cleanup()
+
+    with tempfile.TemporaryDirectory() as td:
+        asyncio.run(run(td))
+    full = (200, b"0123456789")
+    want = {"another entity-tag": full, "current entity-tag": (206, b"23456789"), "weak current tag": full,
+            "no validator": full}
+    bad = [f"If-Range: <{k}> + Range: bytes=2- -> {got[k][0]} with {len(got[k][1])} bytes (RFC 9110 13.1.5: {want[k][0]})"
+           for k in want if got[k] != want[k]]
+    return {"confirmed": bool(bad), "detail": "; ".join(bad) or "If-Range validators honoured",
+            "input": {"file": "0123456789", "Range": "bytes=2-"}}
+
+
 @native("C15.range.arith")
 def r_range_arith(model, obligation):
     """a real static file of the counterexample's size served by web.FileResponse over loop-back, requested with the
     counterexample's Range: status, Content-Range, Content-Length and body against RFC 7233"""
     path = model.get("__path__") or []
+    if "if_range" in obligation:
+        return _r_if_range(model)
     keys = ("file_size", "first_pos", "last_pos", "suffix_len")
     if not all(k in model for k in keys):
         return {"confirmed": False, "detail": "counterexample lacks the range inputs"}
